@@ -14,7 +14,7 @@ R-FLATTEN  : the flattening step (Buffer::flat_clone, non-deep path) composites 
 from analysis import facts as F
 from analysis.cg import CallGraph
 from analysis.effects import Effects
-from analysis.expr import ExprBuilder, show
+from analysis.expr import ExprBuilder, show, inline_helper
 from rules.C09 import linear_nf
 
 OPT = "formats::color_optimization::ColorOptimizer::optimize"
@@ -152,7 +152,21 @@ def run(chk):
             for x in e:
                 if isinstance(x, (tuple, list)):
                     walk_gets(x, depth + 1)
-        walk_gets(eb.operand(sw[1]["discr"]))
+        def inline_calls(e, depth=0):
+            """calls of small crate-local helpers replaced by what they return (`self.lookup_shape(&cell).1`)"""
+            if depth > 40 or not isinstance(e, (tuple, list)):
+                return e
+            if isinstance(e, tuple) and e and e[0] == "call" and isinstance(e[1], str) and e[1] in f.bodies:
+                r = inline_helper(f, e)
+                if r is not None:
+                    return inline_calls(r, depth + 1)
+            if isinstance(e, tuple):
+                out = tuple(inline_calls(x, depth + 1) if isinstance(x, (tuple, list)) else x for x in e)
+                if out and out[0] == "field" and isinstance(out[1], tuple) and out[1][:2] == ("agg", "tuple") and str(out[2]).isdigit() and int(out[2]) < len(out[1][2]):
+                    return out[1][2][int(out[2])]
+                return out
+            return [inline_calls(x, depth + 1) if isinstance(x, (tuple, list)) else x for x in e]
+        walk_gets(inline_calls(eb.operand(sw[1]["discr"])))
         outer = [g_ for g_ in gets if "shape_map" not in show(g_[2][0]).split("get(")[0] and any(h_ is not g_ and h_ in _subtrees(g_[2][0]) for h_ in gets)]
         inner = [g_ for g_ in gets if show(strip(g_[2][0])).endswith(".shape_map")]
         okk = len(inner) == 1 and len(outer) == 1
@@ -160,6 +174,8 @@ def run(chk):
         if okk:
             k1, k2 = strip(inner[0][2][1]), strip(outer[0][2][1])
             c1 = strip(k1[2][0]) if (k1[0] == "call" and k1[1].endswith("AttributedChar::get_font_page") and len(k1[2]) == 1) else None
+            if c1 is None and k1[0] == "field" and k1[2] == "font_page" and strip(k1[1])[0] == "field" and strip(k1[1])[2] == "attribute":
+                c1 = strip(strip(k1[1])[1])         # the getter read as the field it returns
             c2 = strip(k2[1]) if (k2[0] == "field" and k2[2] == "ch") else None
             okk = c1 is not None and c2 is not None and c1 == c2
             why_k = "the shape table is chosen by `%s` and indexed by `%s`: not the font page and the character of one and the same cell" % (show(k1)[:60], show(k2)[:60])
